@@ -59,6 +59,19 @@ def main():
     sh(f"git apply {patch}", cwd=wt)
     meta["confirmed"] = bool(meta["patch_applies"] and meta["tests_pass_with_change"] and rc1 != 0 and rc2 == 0)
     shutil.rmtree(home, ignore_errors=True)
+    if "--via-src" in sys.argv:
+        # do not touch /repo (something else is using it): point the checks at the agent's patched worktree
+        results = {}
+        env2 = dict(os.environ, OSYRIS_SRC=os.path.join(wt, "src"))
+        for p in props:
+            rc, out = sh(f"./check {p} --tier quick --no-evidence", cwd=VERIF, env=env2)
+            mech = [ln.strip() for ln in out.splitlines() if "violations by mechanism" in ln]
+            results[p] = {"exit": rc, "mechanisms": mech[0][-400:] if mech else "",
+                          "verdict": {0: "held", 1: "VIOLATION", 2: "inconclusive"}.get(rc, str(rc))}
+            print(pid, p, results[p]["verdict"], results[p]["mechanisms"][:200], flush=True)
+        print(json.dumps({"property": pid, "confirmed": meta["confirmed"], "via": "OSYRIS_SRC",
+                          "caught_by": sorted(p for p, r in results.items() if r["exit"] == 1)}))
+        return 0
     # run the checks against /repo with the patch applied
     rc, out = sh("git -C /repo status --porcelain --untracked-files=no")
     if out.strip():
